@@ -137,6 +137,15 @@ func (sc *SpecCtx) eval(e SExpr) Term {
 	case *SBinary:
 		return sc.evalBinary(x)
 	case *SField:
+		// pkgalias.Type.field designator
+		if q, ok := x.X.(*SField); ok {
+			if n := sc.typeDesignator(q); n != nil {
+				if fv := structField(n, x.Name); fv != nil {
+					return c.fieldArr(sc.st, n, fv)
+				}
+				sc.fail("type %s has no field %s", n.Obj().Name(), x.Name)
+			}
+		}
 		// Type.field designator: the heap array of that field
 		if id, ok := x.X.(*SIdent); ok {
 			if _, bound := sc.env[id.Name]; !bound && c.e.ghosts[id.Name] == nil {
@@ -408,7 +417,7 @@ func (sc *SpecCtx) indexOf(base, idx Term) Term {
 	switch base.Sort.Kind {
 	case KSlice:
 		sc.want(idx, sInt, "slice index")
-		return Term{S: sliceAt(base, idx.S), Sort: base.Sort.Elem, T: base.Sort.ElemGo}
+		return Term{S: sliceAt(base, idx.S), Sort: base.Sort.Elem, T: sliceElemGo(base)}
 	case KArray:
 		if !sameSort(idx.Sort, base.Sort.Key) {
 			sc.fail("index sort %s, want %s, in %s[%s]", idx.Sort.SMT(), base.Sort.Key.SMT(), base.S, idx.S)
@@ -636,7 +645,7 @@ func (sc *SpecCtx) evalCall(x *SCall) Term {
 			sc.fail("sat of non-slice")
 		}
 		sc.want(j, sInt, "absolute index")
-		return Term{S: fmt.Sprintf("(select (%s.arr %s) %s)", s.Sort.Name, s.S, j.S), Sort: s.Sort.Elem, T: s.Sort.ElemGo}
+		return Term{S: fmt.Sprintf("(select (%s.arr %s) %s)", s.Sort.Name, s.S, j.S), Sort: s.Sort.Elem, T: sliceElemGo(s)}
 	case "emptyseq":
 		argn(1)
 		gt := c.e.parseGhostType("seq["+specTypeString(x.Args[0])+"]", sc.pkg, sc.pos)
